@@ -4,7 +4,7 @@ import PkgModel.Version
 
 Mirrors the code path including its string-level detours: `_compare_equal` with `.*` goes through
 `canonicalize_version`, `_version_split`, `_pad_version`; `_compare_compatible` builds its prefix from
-the *raw* spec string.  Exceptions are explicit: `Except String`, the string being the class name of
+the normalised (`canonicalize_version`) spec string.  Exceptions are explicit: `Except String`, the string being the class name of
 the exception that would escape.
 -/
 namespace S
@@ -162,7 +162,8 @@ def compareGE (prospective : Ver) (spec : Str) : R Bool := do
   pure (p.ge s)
 
 def compareCompatible (prospective : Ver) (spec : Str) : R Bool := do
-  let comps := ((versionSplit spec).takeWhile isNotSuffix).dropLast
+  let ns ← canonNoStrip spec
+  let comps := ((versionSplit ns).takeWhile isNotSuffix).dropLast
   let pfx ← match versionJoin comps with
     | some j => pure (j ++ [46, 42])
     | none => .error "ValueError"
@@ -190,9 +191,8 @@ def compareGT (prospective : Ver) (specStr : Str) : R Bool := do
     if c1 then pure false
     else do
       let c2 ← if prospective.localStr.isSome then do
-          let pb ← version prospective.base
-          let sb ← version spec.base
-          pure (pb.eq sb)
+          let pp ← version prospective.public
+          pure (pp.eq spec)
         else pure false
       pure (!c2)
 
